@@ -45,7 +45,14 @@ Shared == UNION {{[to |-> With(BaseV(g, 1), "to", ListOf(<<Iri(Base \o "old/1")>
 NoType(v) == [v EXCEPT !.p = Restrict(@, DOMAIN @ \ {"type"})]
 FullOf(g) == (CHOOSE c \in Full(FALSE) : c.lab.g = g).v
 UntypedTo == {[to |-> NoType(BaseV(g, 4)), from |-> FullOf(g)] : g \in CopyTypes}
-AllCopy == UntypedTo \cup Shared \cup OneTerm \cup TwoTerms \cup GuardCases \cup VariantIds
+\* `from` holds a property that is present but EMPTY (an empty non-nil list or text list -- what the *New constructors and the gob
+\* decoder leave behind -- or a typed nil pointer): empty is unset, `to` must keep what it has
+EmptyOf(kind) == CASE kind = "item" -> [k |-> "nil", as |-> "Object"] [] kind = "items" -> ListOf(<<>>) [] kind = "nlv" -> Nlv(<<>>)
+EmptyFrom == UNION {{[to |-> With(BaseV(g, 1), r.t, ValA(r)), from |-> With(BaseV(g, 1), r.t, EmptyOf(r.k))]
+                     : r \in {x \in OwnRows(g) : x.k \in {"item", "items", "nlv"}}} : g \in {"Object", "Actor", "OrderedCollection", "CollectionPage"}}
+\* both sides untyped: the struct says what kind of value it is
+BothUntyped == {[to |-> NoType(BaseV(g, 4)), from |-> NoType(FullOf(g))] : g \in CopyTypes}
+AllCopy == EmptyFrom \cup BothUntyped \cup UntypedTo \cup Shared \cup OneTerm \cup TwoTerms \cup GuardCases \cup VariantIds
 GenInit == mto = <<>> /\ mfrom = <<>> /\ phase = "gen"
 GenNext == FALSE /\ UNCHANGED vars
 ASSUME ndJsonSerialize("c18_cases.ndjson", SetToSeq(AllCopy))
